@@ -652,3 +652,47 @@ def check(model, rep):
                    'beyond that is reported - and clamped by FK - at other values, so in-limit joint values give the pose of another configuration)'
                    % (norm_text(val_)[:70], fld), line=st_.lineno)
     rep.floor('R13.7', 'limit stores of setJointProperties', n137, 2)
+    # ---------------------------------------------------------------- R13.8
+    # From the file's origin matrices to the home matrix FK multiplies with, poses are composed as MATRICES (A @ B, np.dot, tm(matrix)).  The
+    # frame helpers localToGlobal / globalToLocal compose through the axis-angle vectors (tm(LocalToGlobal(a.gTAA(), b.gTAA()))): the result is
+    # rebuilt from exp(log(R)), which is exact to ~1e-16 for ordinary rotations but only to ~1e-5 for a net rotation within 1e-5 rad of a half
+    # turn - exactly what a flange written as rpy="3.14159 0 0" produces.  The property's tolerance is 1e-6.
+    rep.rule('R13.8', 'load path: the poses that become the arm\'s home tool matrix are composed as matrices - never through the axis-angle frame helpers '
+                      '(localToGlobal / globalToLocal), whose exp(log(.)) rebuild loses the exact matrix for rotations near a half turn')
+    LOSSY = ('localToGlobal', 'globalToLocal', 'LocalToGlobal', 'GlobalToLocal')
+
+    def lossy_in(e_):
+        out = []
+        for c_ in ast.walk(e_):
+            if isinstance(c_, ast.Call) and norm_text(c_.func).split('.')[-1] in LOSSY:
+                out.append(c_)
+            # tm(x.gTAA()) / tm(x.TAA): the same rebuild spelled by hand
+            if isinstance(c_, ast.Call) and norm_text(c_.func) == 'tm' and len(c_.args) == 1 and any(
+                    (isinstance(x_, ast.Attribute) and x_.attr == 'TAA') or (isinstance(x_, ast.Call) and isinstance(x_.func, ast.Attribute) and x_.func.attr in ('gTAA', 'getTAA'))
+                    for x_ in ast.walk(c_.args[0])) and any(isinstance(x_, ast.BinOp) for x_ in ast.walk(c_.args[0])):
+                out.append(c_)
+        return out
+    n138 = 0
+    ini138 = arm_cls.methods.get('initialize')
+    if ini138 is None:
+        raise AnalysisError('anchor vanished: Arm.initialize')
+    il138 = Inliner(ini138)
+    for a_ in walk_own(ini138.node):
+        if isinstance(a_, ast.Assign) and any(norm_text(t_) == 'self._end_effector_home' for t_ in a_.targets):
+            n138 += 1
+            val_ = il138.expand(a_.value)
+            bad_ = lossy_in(val_)
+            rep.ob('R13.8', ini138, 'self._end_effector_home = %s' % norm_text(a_.value)[:70], not bad_,
+                   'the home tool pose is composed through %s: it is rebuilt from its axis-angle vector (exp(log(R))), so for a tool frame whose net home rotation '
+                   'is a truncated half turn (rpy="3.14159 0 0" on a fixed flange joint) the loaded arm\'s FK orientation is off by about 1e-5 for every joint vector'
+                   % (norm_text(bad_[0].func) if bad_ else ''), line=a_.lineno)
+    rep.floor('R13.8', 'stores of the home tool pose in Arm.initialize', n138, 1)
+    n_lf = 0
+    for fi_ in [load] + list(loader_cls.methods.values()) + [arm_cls.methods[m_] for m_ in ('__init__',) if m_ in arm_cls.methods]:
+        n_lf += 1
+        bad_ = lossy_in(fi_.node)
+        rep.ob('R13.8', fi_, '%s composes poses as matrices' % fi_.qualname, not bad_,
+               '%s composes a pose through %s (line %s): the accumulated joint / tool pose is rebuilt from its axis-angle vector and is only accurate to ~1e-5 near a half turn'
+               % (fi_.qualname, norm_text(bad_[0].func) if bad_ else '', bad_[0].lineno if bad_ else ''), line=bad_[0].lineno if bad_ else None)
+    rep.count('R13.8 loader functions scanned', n_lf)
+
